@@ -64,6 +64,7 @@ type vfBarCase struct {
 	Color    string `json:"color,omitempty"`
 	Name     string `json:"name"`
 	Count    int64  `json:"count"`
+	AllFiles bool   `json:"walk_through_all_files,omitempty"`
 	Size     int64  `json:"size"`
 	History  string `json:"history"`
 	HostileS bool   `json:"hostile_steps,omitempty"`
@@ -169,6 +170,9 @@ func vfRunBar(c *vfCtx, bc vfBarCase, r *vfRand) (renders int64) {
 	if bc.Count > 1 {
 		nfiles = 2
 	}
+	if bc.AllFiles && bc.Count <= 200 {
+		nfiles = int(bc.Count) // the "(i/n)" counter grows by a digit at file 10 and at file 100
+	}
 	if !call(fmt.Sprintf("onNum(%d)", bc.Count), func() { bar.onNum(bc.Count) }) || !check() {
 		return
 	}
@@ -208,6 +212,9 @@ func vfRunBar(c *vfCtx, bc vfBarCase, r *vfRand) (renders int64) {
 			}
 		}
 		nsteps := 6 + r.Intn(30)
+		if f >= 2 {
+			nsteps = 1 + r.Intn(3)
+		}
 		cur := int64(0)
 		for k := 0; k < nsteps; k++ {
 			var s int64
@@ -389,7 +396,7 @@ func TestVF_C20(t *testing.T) {
 	var battery []tup
 	hists := []string{"monotone", "repeat", "regress", "resume"}
 	sizes := []int64{0, 1, 99, 1 << 31, 1 << 62}
-	counts := []int64{1, 2, 10, 1000000}
+	counts := []int64{1, 2, 10, 1000000, 12, 101}
 	k := 0
 	for _, cl := range vfNameClasses() {
 		for i := range vfNamesByClass[cl] {
@@ -412,6 +419,7 @@ func TestVF_C20(t *testing.T) {
 				if w%50 == 7 {
 					bc.Color = "00ffff ff00ff"
 				}
+				bc.AllFiles = tp.count >= 10 && (tp.count <= 12 && w%10 == 3 || w%100 == 53)
 				renders += vfRunBar(c, bc, vfNewRand(c.ID, w))
 				if c.Failed() {
 					c.Replay(bc)
@@ -432,7 +440,7 @@ func TestVF_C20(t *testing.T) {
 			r := c.R
 			cl := vfNameClasses()[r.Intn(7)]
 			names := vfNamesByClass[cl]
-			bc := vfBarCase{Width: int32(1 + r.Intn(500)), Name: names[r.Intn(len(names))], Count: counts[r.Intn(4)],
+			bc := vfBarCase{Width: int32(1 + r.Intn(500)), Name: names[r.Intn(len(names))], Count: counts[r.Intn(len(counts))], AllFiles: r.Intn(3) == 0,
 				Size:    []int64{0, 1, 2, 99, 100, 4096, 1 << 20, 1 << 31, 1<<31 + 7, 1 << 40, 1 << 62}[r.Intn(11)],
 				History: []string{"monotone", "repeat", "regress", "resume", "hostile", "hostile"}[r.Intn(6)]}
 			switch r.Intn(4) {
